@@ -909,9 +909,15 @@ func checkOperators(opsFile *ast.File, builtinFile *ast.File) (int, [][2]string)
 	powExp := small && !isXError(pow(xnum("0.1"), xnum(strconv.Itoa(L)))) && isXError(pow(xnum("0.1"), xnum(strconv.Itoa(L+1)))) &&
 		isXError(pow(xnum("0.01"), xnum(strconv.Itoa(half+1)))) && !isXError(pow(xnum("0.01"), xnum(strconv.Itoa(half)))) &&
 		isXError(pow(xnum("0.1"), xnum("-"+strconv.Itoa(L+1)))) && isXError(pow(xnum("0.1"), xnum("100000000000000000000")))
+	// digits of the base x whole part of the power within the limit, for negative AND positive powers, unless the
+	// coefficient is 0 or +-1 (pow_body of the model)
 	powNeg := small && !isXError(pow(xnum("2"), xnum("-"+strconv.Itoa(L)))) && isXError(pow(xnum("2"), xnum("-"+strconv.Itoa(L+1)))) &&
 		isXError(pow(xnum("10"), xnum("-"+strconv.Itoa(half+1)))) && !isXError(pow(xnum("10"), xnum("-"+strconv.Itoa(half)))) &&
-		!isXError(pow(xnum("10"), xnum(strconv.Itoa(half+1))))
+		!isXError(pow(xnum("2"), xnum(strconv.Itoa(L)))) && isXError(pow(xnum("2"), xnum(strconv.Itoa(L+1)))) &&
+		isXError(pow(xnum("10"), xnum(strconv.Itoa(half+1)))) && !isXError(pow(xnum("10"), xnum(strconv.Itoa(half)))) &&
+		isXError(pow(xnum("2"), xnum("99999999999"))) && isXError(pow(xnum("7"), xnum(strconv.Itoa(L+1)+".5"))) &&
+		!isXError(pow(xnum("1"), xnum("100000000000000000000"))) && !isXError(pow(xnum("-1"), xnum("100000000000000000001"))) &&
+		!isXError(pow(xnum("0"), xnum("100000000000000000000")))
 	d64 := strings.Repeat("7", 64)
 	powFrac := !isXError(pow(xnum("1.5"), xnum("0.5"))) && !isXError(pow(xnum(d64), xnum("0.5"))) && isXError(pow(xnum(d64+"7"), xnum("0.5"))) &&
 		isXError(pow(xnum("2"), xnum("0."+d64[:33]))) && !isXError(pow(xnum("2"), xnum("0."+d64[:32]))) && !isXError(pow(xnum(d64+"7"), xnum("2"))) &&
@@ -931,11 +937,34 @@ func checkOperators(opsFile *ast.File, builtinFile *ast.File) (int, [][2]string)
 		}
 		return inF.call(fd, fd, []any{nil, a, b})
 	}
+	// Repeat: the length limit of repeat_body of the model
+	rep := func(text string, count int) (res any) {
+		defer func() {
+			if r := recover(); r != nil {
+				res = fmt.Sprint("PANIC ", r)
+			}
+		}()
+		inF.where = "functions/builtin.go Repeat"
+		fd := inF.funcs["Repeat"]
+		if fd == nil {
+			fatal("functions/builtin.go: Repeat not found")
+		}
+		return inF.call(fd, fd, []any{nil, newXText(text), int64(count)})
+	}
+	long := strings.Repeat("é", 1000)
+	repLen := func(v any) int {
+		if t, ok := v.(*xText); ok {
+			return t.Length()
+		}
+		return -1
+	}
+	repLimit := repLen(rep(long, 100)) == 100000 && isXError(rep(long, 101)) && repLen(rep("ab", 50000)) == 100000 && isXError(rep("ab", 50001)) &&
+		isXError(rep("x", 2147483647)) && repLen(rep("", 2147483647)) == 0 && isXError(rep("x", -1)) && repLen(rep("x", 0)) == 0
 	modZero := isXError(mod(one, xnum("0"))) && isXError(mod(one, xnum("0.000"))) && !isXError(mod(xnum("7"), xnum("2")))
 
 	return L, [][2]string{
 		{"Multiply.canonical", b(mulCanon)}, {"Multiply.exponent", b(mulLimit)}, {"Divide.zero", b(divZero)}, {"Mod.zero", b(modZero)},
-		{"Exponent.canonical", b(powCanon)}, {"Exponent.exponent", b(powExp)}, {"Exponent.negative", b(powNeg)}, {"Exponent.fractional", b(powFrac)},
+		{"Exponent.canonical", b(powCanon)}, {"Exponent.exponent", b(powExp)}, {"Exponent.digits", b(powNeg)}, {"Exponent.fractional", b(powFrac)}, {"Repeat.length", b(repLimit)},
 	}
 }
 
